@@ -1,4 +1,5 @@
 import OsuProofs.FileCacheOps
+import OsuProofs.FileCacheOrder
 
 /-!
 # C18 — file cache: contents, hits, size bound and LRU eviction over any request history
@@ -366,5 +367,20 @@ theorem output_order_independent (resOf : Nat → Nat) (s : State) (reqs : List 
     exact hdec q.key
   simp only [get, h₁, h₂, Bool.not_true, Bool.false_eq_true, if_false, hret, hfil]
 
+
+/-- **sequential ≡ parallel, state**: for every reachable state, every request with distinct keys and
+any two admissible completion orders with the same set of completed downloads, the caches left
+behind are observationally equal — same index, same size limit, same clock, same content and size
+of every file in the directory (cache, temporary and foreign) — and the same files are evicted.
+Only the time stamps of the files downloaded by this request may differ (they record the
+completion order itself). -/
+theorem state_order_independent (s : State) (reqs : List Req) (ran₁ ran₂ : List Nat) (h : Inv resOf s)
+    (hk : reqs.Pairwise (fun a b => a.key ≠ b.key))
+    (h₁ : scheduleOk s.tolerant (reqs.filter (isMiss s)) ran₁ = true)
+    (h₂ : scheduleOk s.tolerant (reqs.filter (isMiss s)) ran₂ = true)
+    (hset : ∀ k, k ∈ ran₁ ↔ k ∈ ran₂) :
+    ObsEq (get resOf s reqs ran₁).state (get resOf s reqs ran₂).state ∧
+    (get resOf s reqs ran₁).evicted = (get resOf s reqs ran₂).evicted :=
+  get_obsEq resOf s reqs ran₁ ran₂ h hk h₁ h₂ hset
 
 end Osu.FC
